@@ -285,6 +285,14 @@ func c01(c *Ctx) {
 			r.Pass("R1.bounds", k, pos, why)
 			continue
 		}
+		if why := totalLibraryCall(p, s); why != "" {
+			r.Pass("R1.bounds", k, pos, why)
+			continue
+		}
+		if why := pooledBufferBound(p, s); why != "" {
+			r.Pass("R1.bounds", k, pos, "discharged by provenance: "+why)
+			continue
+		}
 		if dump {
 			fmt.Fprintf(os.Stderr, "UNTRIAGED\t%s\t%s\t%s\t%s\tx%d\t%s\t%s\n", s.FnName, s.Kind, s.Expr, pos, got[k], srcLine(p, s), s.Raw)
 		}
@@ -334,6 +342,12 @@ func c01other(c *Ctx, roots []*ssa.Function, reach map[*ssa.Function]bool, tab *
 						continue
 					}
 					// a type switch lowers to comma-ok asserts; a plain x.(T) stays
+					if why := poolAssertProved(p, x); why != "" {
+						kk := name + " TypeAssert " + types.TypeString(x.AssertedType, func(pk *types.Package) string { return pk.Name() }) + " (sync.Pool)"
+						proved[kk] = why
+						posOf[kk] = p.Pos(core.InstrPos(x))
+						continue
+					}
 					if why := atomicValueAssertProved(p, x); why != "" {
 						proved[name+" TypeAssert "+types.TypeString(x.AssertedType, func(pk *types.Package) string { return pk.Name() })+" (atomic.Value)"] = why
 						posOf[name+" TypeAssert "+types.TypeString(x.AssertedType, func(pk *types.Package) string { return pk.Name() })+" (atomic.Value)"] = p.Pos(core.InstrPos(x))
@@ -672,7 +686,60 @@ func locallyGuarded(s core.BoundsSite) string {
 				}
 				return "every path passes len(x) >= the slice bound (same expression)"
 			case *ssa.IndexAddr:
-				if _, isC := core.ConstInt(x.Index); isC {
+				if k, isC := core.ConstInt(x.Index); isC {
+					// x[k] after len(x) > k was established on every path, where x is read through a
+					// pointer parameter this function only reads (the compiler gives up as soon as a
+					// call - a timer, a log line - sits between the test and the index, because it
+					// must assume the call could write through the pointer)
+					if k < 0 {
+						return ""
+					}
+					base := x.X
+					for {
+						if ct, isCt := base.(*ssa.ChangeType); isCt {
+							base = ct.X
+							continue
+						}
+						break
+					}
+					ld, ok := base.(*ssa.UnOp)
+					if !ok || ld.Op != token.MUL {
+						return ""
+					}
+					pa, ok := ld.X.(*ssa.Parameter)
+					if !ok || pa.Referrers() == nil {
+						return ""
+					}
+					for _, rf := range *pa.Referrers() {
+						if u, isLd := rf.(*ssa.UnOp); !isLd || u.Op != token.MUL {
+							if _, isDbg := rf.(*ssa.DebugRef); !isDbg {
+								return ""
+							}
+						}
+					}
+					sameLoc := func(v ssa.Value) bool {
+						for {
+							if ct, isCt := v.(*ssa.ChangeType); isCt {
+								v = ct.X
+								continue
+							}
+							break
+						}
+						u, ok := v.(*ssa.UnOp)
+						return ok && u.Op == token.MUL && u.X == ssa.Value(pa)
+					}
+					g := core.AnyFact(func(f core.Fact) bool {
+						return core.CmpFact(f, func(op token.Token, a, c ssa.Value) bool {
+							n, isN := core.ConstInt(c)
+							if !isN || !core.IsLenOf(a, sameLoc) {
+								return false
+							}
+							return (op == token.GTR && n >= k) || (op == token.GEQ && n >= k+1) || (op == token.NEQ && n == 0 && k == 0)
+						})
+					})
+					if core.InstrGuarded(x, g, nil) == nil {
+						return "every path passes len(*p) > index for a pointer parameter this function only reads"
+					}
 					return ""
 				}
 				g := core.AnyFact(func(f core.Fact) bool {
@@ -758,6 +825,10 @@ func inlinedCopy(p *core.Prog, s core.BoundsSite, want map[string]*triageEntry) 
 				return ""
 			}
 		}
+	}
+	// a renamed callee is listed under the name it had on the audited tree
+	if old, ok := p.Renamed[name]; ok {
+		name = old
 	}
 	var reasons []string
 	for k, e := range want {
@@ -1182,4 +1253,66 @@ func intervalGuarded(sl *ssa.Slice) string {
 		}
 	}
 	return fmt.Sprintf("bounds %s : %s are linear in a loop counter w in [%d, %d]; 0 <= low <= high <= %d at both ends", lo.String(), hi.String(), wlo, whi, L)
+}
+
+// totalLibraryCall: the compiler attributes a check to a call expression when it inlined the
+// callee. For a short list of dependency functions that are total - they size their own output
+// from the input and accept any input length (hex and string formatting, cloning) - the check is
+// about the callee's own buffers, not about peer data: such calls appear whenever a log line or
+// a metric label is added.
+var totalLibraryFuncs = map[string]bool{
+	"github.com/ethereum/go-ethereum/common/hexutil.Encode":         true,
+	"github.com/ethereum/go-ethereum/common.Bytes2Hex":              true,
+	"encoding/hex.EncodeToString":                                   true,
+	"(github.com/ethereum/go-ethereum/common.Hash).Hex":             true,
+	"(github.com/ethereum/go-ethereum/common.Hash).String":          true,
+	"(github.com/ethereum/go-ethereum/common.Hash).TerminalString":  true,
+	"(github.com/ethereum/go-ethereum/common.Address).Hex":          true,
+	"(github.com/ethereum/go-ethereum/common.Address).String":       true,
+	"(github.com/ethereum/go-ethereum/p2p/enode.ID).String":         true,
+	"(github.com/ethereum/go-ethereum/p2p/enode.ID).TerminalString": true,
+	"(github.com/ethereum/go-ethereum/p2p/enode.ID).GoString":       true,
+	"bytes.Clone":        true,
+	"slices.Clone":       true,
+	"strings.Clone":      true,
+	"strconv.Itoa":       true,
+	"strconv.FormatUint": true,
+	"strconv.FormatInt":  true,
+}
+
+func totalLibraryCall(p *core.Prog, s core.BoundsSite) string {
+	call, ok := s.Node.(*ast.CallExpr)
+	if !ok {
+		return ""
+	}
+	pk, _ := p.FileOf(s.Pos)
+	if pk == nil {
+		return ""
+	}
+	var callee *types.Func
+	switch fun := ast.Unparen(call.Fun).(type) {
+	case *ast.Ident:
+		callee, _ = pk.TypesInfo.Uses[fun].(*types.Func)
+	case *ast.SelectorExpr:
+		if sel, ok := pk.TypesInfo.Selections[fun]; ok {
+			callee, _ = sel.Obj().(*types.Func)
+		} else {
+			callee, _ = pk.TypesInfo.Uses[fun.Sel].(*types.Func)
+		}
+	case *ast.IndexExpr: // explicit instantiation
+		if id, ok := fun.X.(*ast.SelectorExpr); ok {
+			callee, _ = pk.TypesInfo.Uses[id.Sel].(*types.Func)
+		}
+	}
+	if callee == nil {
+		return ""
+	}
+	name := callee.FullName()
+	if o := callee.Origin(); o != nil {
+		name = o.FullName()
+	}
+	if totalLibraryFuncs[name] {
+		return "check inside the inlined dependency function " + name + ", which sizes its own output and accepts any input length (dependencies are out of scope)"
+	}
+	return ""
 }
